@@ -119,14 +119,14 @@ void fticks_log(const struct options *options,
         if (macin) {
             switch (options->fticks_mac) {
             case RSP_MAC_ORIGINAL:
-                memcpy(macout, macin, sizeof(macout));
+                strncpy((char *)macout, (char *)macin, sizeof(macout) - 1);
                 break;
             case RSP_MAC_VENDOR_HASHED:
-                memcpy(macout, macin, 9);
+                strncpy((char *)macout, (char *)macin, 9);
                 fticks_hashmac(macin, NULL, sizeof(macout) - 9, macout + 9);
                 break;
             case RSP_MAC_VENDOR_KEY_HASHED:
-                memcpy(macout, macin, 9);
+                strncpy((char *)macout, (char *)macin, 9);
                 /* We are hashing the first nine octets too for easier
 		 * correlation between vendor-key-hashed and
 		 * fully-key-hashed log records.  This opens up for a
